@@ -220,7 +220,21 @@ impl Index for HnswIndex {
         // For Manhattan, request more candidates since L2 ordering != L1 ordering.
         // Reranking from a larger candidate set improves recall.
         let search_k = if is_manhattan { k * 4 } else { k };
+        // Deleted ids stay in the graph until the next rebuild: fetch that many
+        // extra candidates and drop the tombstoned ones below.
+        let tombstones = self.tombstones.read();
+        let search_k = search_k + tombstones.len();
         let raw_results = inner.hnsw.search(&prepared_query, search_k, ef_search);
+        let raw_results: Vec<_> = raw_results
+            .into_iter()
+            .filter(|neighbour| {
+                inner
+                    .index_to_tuple_id
+                    .get(neighbour.d_id)
+                    .is_none_or(|id| !tombstones.contains(id))
+            })
+            .collect();
+        drop(tombstones);
 
         // Map internal indices to tuple IDs using the stored mapping
         let mut results: Vec<(TupleId, f64)> = if is_manhattan {
@@ -316,6 +330,8 @@ impl Index for HnswIndex {
                 vectors.push((id, prepared));
             }
         }
+        // Inserting a previously deleted id makes it live again
+        self.tombstones.write().remove(&id);
 
         // Rebuild HNSW structure
         // Note: For better performance, we could batch inserts and rebuild less frequently
@@ -365,12 +381,16 @@ impl Index for HnswIndex {
                     vectors.push((*id, prepared));
                 }
             }
+            self.tombstones.write().remove(id);
         }
         // Single rebuild after all inserts (key optimization)
         self.rebuild_hnsw()
     }
 
     fn delete(&mut self, id: TupleId) {
+        if !self.vectors.read().iter().any(|(stored, _)| *stored == id) {
+            return; // nothing stored under this id
+        }
         self.tombstones.write().insert(id);
 
         // Auto-compact when tombstone ratio exceeds 30% (#49)
